@@ -133,7 +133,7 @@ def rand_attr(rng):
         return rng.choice([1, A_XMAP, 0x12, 0x16]), bytes([0, fam]) + struct.pack(">H", rng.randrange(65536)) + bytes(rng.randrange(256) for _ in range(4 if fam == 1 else 16))
     if r < 0.55:
         code = rng.choice([300, 400, 401, 403, 420, 438, 487, 500, 699, 250, 700])
-        return A_ERR, bytes([0, 0, code // 100, code % 100]) + rng.choice([b"", b"err", b"Bad request"])
+        return A_ERR, bytes([0, 0, (code // 100) | rng.choice([0, 0, 0, 0x08, 0xf8, rng.randrange(32) << 3]), code % 100]) + rng.choice([b"", b"err", b"Bad request"])
     if r < 0.65:
         return rng.choice([A_REALM, A_NONCE, A_SW]), bytes(rng.choice(b'abc"\x00 xyz') for _ in range(rng.randrange(0, 12)))
     if r < 0.75:
